@@ -11,6 +11,8 @@
 #include "verif.h"
 #include "alloc.h"
 #include "histx.h"
+#include <cmath>
+#include <limits>
 #include "ref_utf.h"
 #include "st_stringstream.h"
 
@@ -468,6 +470,34 @@ struct OverloadSys : StreamBase {
         ov.push_back(OvOp{"<< (const char32_t*)nullptr", [](SS &s) { s << (const char32_t *)nullptr; }, ""});
         ov.push_back(OvOp{"<< (const char8_t*)nullptr", [](SS &s) { s << (const char8_t *)nullptr; }, ""});
         ov.push_back(OvOp{"<< std::filesystem::path", [](SS &s) { s << std::filesystem::path(std::u8string(u8s)); }, txt});
+        // texts whose first / last character is one a "helpful" reader might treat specially (byte order mark, non-characters, line
+        // and paragraph separators, the last scalar): appended like any other character, through every text overload
+        {
+            static const std::u32string sp32 = U"\uFEFFa\uFFFE\u2028\uFFFF\U0010FFFF\u0085\uFEFF";
+            static const std::string sp8 = "\xEF\xBB\xBF" "a\xEF\xBF\xBE\xE2\x80\xA8\xEF\xBF\xBF\xF4\x8F\xBF\xBF\xC2\x85\xEF\xBB\xBF";
+            static const std::wstring spw(sp32.begin(), sp32.end());
+            static const std::u16string sp16 = u"\uFEFFa\uFFFE\u2028\uFFFF\U0010FFFF\u0085\uFEFF";
+            ov.push_back(OvOp{"<< const wchar_t* (leading U+FEFF, special scalars)", [](SS &s) { s << spw.c_str(); }, sp8});
+            ov.push_back(OvOp{"<< const char16_t* (leading U+FEFF, special scalars)", [](SS &s) { s << sp16.c_str(); }, sp8});
+            ov.push_back(OvOp{"<< const char32_t* (leading U+FEFF, special scalars)", [](SS &s) { s << sp32.c_str(); }, sp8});
+            ov.push_back(OvOp{"<< const char* (leading U+FEFF, special scalars)", [](SS &s) { s << sp8.c_str(); }, sp8});
+            ov.push_back(OvOp{"<< std::wstring (leading U+FEFF, special scalars)", [](SS &s) { s << spw; }, sp8});
+            ov.push_back(OvOp{"<< std::u16string_view (leading U+FEFF, special scalars)", [](SS &s) { s << std::u16string_view(sp16); }, sp8});
+            ov.push_back(OvOp{"<< std::u32string (leading U+FEFF, special scalars)", [](SS &s) { s << sp32; }, sp8});
+            ov.push_back(OvOp{"<< ST::string (leading U+FEFF, special scalars)", [](SS &s) { s << ST::string::from_validated(sp8.data(), sp8.size()); }, sp8});
+            ov.push_back(OvOp{"append (leading U+FEFF, special scalars)", [](SS &s) { s.append(sp8.data(), sp8.size()); }, sp8});
+        }
+        // not-a-number values with the sign bit set and clear, infinities (the C library prints the sign of a NaN)
+        {
+            auto cfmt = [](double v) { char b[64]; snprintf(b, sizeof b, "%g", v); return std::string(b); };
+            const double nn = std::copysign(std::numeric_limits<double>::quiet_NaN(), -1.0), pn = std::copysign(std::numeric_limits<double>::quiet_NaN(), 1.0);
+            const double ni = -std::numeric_limits<double>::infinity();
+            ov.push_back(OvOp{"<< (double)-nan", [nn](SS &s) { s << nn; }, cfmt(nn)});
+            ov.push_back(OvOp{"<< (double)+nan", [pn](SS &s) { s << pn; }, cfmt(pn)});
+            ov.push_back(OvOp{"<< (float)-nan", [nn](SS &s) { s << (float)nn; }, cfmt((double)(float)nn)});
+            ov.push_back(OvOp{"<< (double)-inf", [ni](SS &s) { s << ni; }, cfmt(ni)});
+            ov.push_back(OvOp{"<< (float)-inf", [ni](SS &s) { s << (float)ni; }, cfmt(ni)});
+        }
         // paths whose text is not in "generic" form: the text of the path is appended as it is (u8string()), nothing is normalised
         ov.push_back(OvOp{"<< std::filesystem::path (doubled separators)", [](SS &s) { s << std::filesystem::path("dir//sub///file"); }, "dir//sub///file"});
         ov.push_back(OvOp{"<< std::filesystem::path (dot segments, trailing separator)", [](SS &s) { s << std::filesystem::path("./a/../b/./"); }, "./a/../b/./"});
